@@ -45,8 +45,8 @@ func init() {
 			}
 			return 4
 		},
-		Run:  runC01,
-		Need: []string{"replica_blocks_compared", "restart_points", "commit_kill_points"},
+		Run:         runC01,
+		Need:        []string{"replica_blocks_compared", "restart_points", "commit_kill_points"},
 		Assumptions: []string{"only MemDB and goleveldb exist in this build (no cgo backends)", "process kill (SIGKILL), not power loss: the OS page cache survives"},
 	})
 }
